@@ -347,6 +347,56 @@ def arr_suite(ctx, exe, tier):
 
 # ---------------------------------------------------------------- main
 
+BYVAL_SRC = '''SUB bump(p%)
+p% = p% + 1
+END SUB
+DIM a%(3)
+x% = 5
+a%(2) = 7
+bump x% + 0
+PRINT x%
+bump (x%)
+PRINT x%
+bump x% * 1
+PRINT x%
+bump 0 + x%
+PRINT x%
+bump 1 * x%
+PRINT x%
+bump x% - 0
+PRINT x%
+bump a%(2) + 0
+PRINT a%(2)
+bump x%
+PRINT x%
+bump a%(2)
+PRINT a%(2)
+'''
+BYVAL_EXPECT = [5, 5, 5, 5, 5, 5, 7, 6, 8]
+
+
+def byvalue_suite(ctx):
+    """an expression argument aliases nothing, also when the expression is an
+    identity (x + 0, x * 1, ...) that an optimiser might reduce to the variable"""
+    cases = [{'src': BYVAL_SRC, 'level': lv, 'debug': dbg, 'script': {}, 'max_ticks': 20000}
+             for lv in (0, 1, 2, 3) for dbg in (False, True)]
+    raws = vlib.run_impl('machfn.run_case', cases)
+    for c, r in zip(cases, raws):
+        if not isinstance(r, dict) or 'result' not in r:
+            ctx.report(f'C04/byvalue-program-failed(level={c["level"]})', {'src': c['src'], 'impl': r}, True)
+            continue
+        ev = r['result'][2][12]
+        got = [''.join(chr(x) for x in e[1]).strip() for e in ev if e[0] == 1]
+        want = [str(v) for v in BYVAL_EXPECT]
+        if got != want:
+            ctx.report(f'C04/expression-argument-aliases-caller-variable(level={c["level"]})',
+                       {'src': c['src'], 'level': c['level'], 'debug': c['debug'], 'printed': got,
+                        'expected': want}, True)
+    ctx.count('byvalue-identity-expressions', len(cases), {(c['level'], c['debug']) for c in cases})
+    ctx.rule.append('byvalue: one program passing x+0, (x), x*1, 0+x, 1*x, x-0, a(2)+0 and then x, a(2) to a SUB that '
+                    'increments its parameter, at levels 0-3 x debug; expected printed values by construction')
+
+
 def main(tier, seed):
     ctx = Ctx(PROP, tier, seed, 'proof')
     ctx.trusted_base = [
@@ -368,6 +418,7 @@ def main(tier, seed):
     fn_suite(ctx, exe, tier)
     arr_suite(ctx, exe, tier)
     G.sentinel_suite(ctx, tier)
+    byvalue_suite(ctx)
     I.isa_suite(ctx, mexe, tier)
     return ctx.finish()
 
